@@ -22,6 +22,7 @@ PRE_STRENGTHENED = {
     "C09-r2-1": "rewind was only called with all optional outputs present; now every optional-output combination x creator/foreign nonce",
     "C09-r2-2": "no message block was ever chosen against the stream; now blocks crafted so that stream XOR message is n, n+1, 2^256-1",
     "C20-r2-2": "the replaced compression function treated n_blocks == 0 as a no-op like the built-in one, so nothing differed; calls with zero blocks (outside the documented 'one or more') are now counted and reported",
+    "C06-r3-1": "only gcc builds were run in the quick tier; the dropped volatile barrier turns into a branch under clang -O2 only; a clang -O2 build of the shipped configuration was added",
     "C07-r2-2": "rewind was only called with all optional outputs present (C07 and C09); now also with none / value only / blind only and a foreign nonce",
 }
 rows = []
